@@ -60,6 +60,7 @@ func ParseProgram(p *ParserZH) *syntax.Program {
 //           -> Expr
 //           -> ；
 func ParseStatement(p *ParserZH) syntax.Statement {
+	defer p.enterNesting()()
 	var validTypes = []uint8{
 		TypeStmtSep,
 		TypeDeclareW,
@@ -174,6 +175,7 @@ func ParseExpressionMAP(p *ParserZH) syntax.Expression {
 
 // parseExpressionLv1 - X 或 Y
 func parseExpressionLv1(p *ParserZH, cfg syntax.EqMarkConfig) syntax.Expression {
+	defer p.enterNesting()()
 	var parseTail func(syntax.Expression) syntax.Expression
 
 	parseTail = func(el syntax.Expression) syntax.Expression {
